@@ -7,6 +7,7 @@
 -/
 import Serif.Proofs.Csv
 import Serif.Proofs.CsvLex
+import Serif.Proofs.CsvLexU
 
 namespace Serif.C19
 open Serif.Csv
@@ -193,6 +194,31 @@ theorem lexer_roundtrip_lines (d : Char) (g : GoodDelim d) (crlf : Bool) (rs : L
     (hw : ∀ r ∈ rs, wellQuoted d r = true) :
     parseLines d (splitLF (renderText d crlf rs)) = .ok (rs.map (·.map (·.2))) := by
   rw [parseLines_splitLF]; exact parseText_renderText d g crlf rs hw
+
+open Serif.CsvLex in
+/-- the same for a file opened with `newline=''` — how `read_csv` opens a path —, whose iteration ends lines at `'\n'`, `'\r\n'` and a lone
+    `'\r'` (a quoted field that holds CR or CR LF is then delivered in pieces; inside quotes it does not matter where lines end) -/
+theorem lexer_roundtrip_universal (d : Char) (g : GoodDelim d) (crlf : Bool) (rs : List (List (Bool × List Char)))
+    (hw : ∀ r ∈ rs, wellQuoted d r = true) :
+    parseLines d (splitP univ (renderText d crlf rs)) = .ok (rs.map (·.map (·.2))) :=
+  parseP_renderText univ_policy g crlf rs hw
+
+open Serif.CsvLex in
+/-- … and under every line-splitting policy that ends a line after `'\n'`, never after an ordinary character and not between `'\r'` and
+    `'\n'`: what the reader yields does not depend on the file object's way of cutting lines -/
+theorem lexer_roundtrip_any_policy (inj : Char → List Char → Bool) (p : Policy inj) (d : Char) (g : GoodDelim d) (crlf : Bool)
+    (rs : List (List (Bool × List Char))) (hw : ∀ r ∈ rs, wellQuoted d r = true) :
+    parseLines d (splitP inj (renderText d crlf rs)) = .ok (rs.map (·.map (·.2))) :=
+  parseP_renderText p g crlf rs hw
+
+open Serif.CsvLex in
+/-- the policies are not interchangeable on arbitrary text: a bare CR inside a line is a record end for a `newline=''` file and an
+    error for a stream that splits at LF only — which is why the harness hands the model the lines of the very kind of source it gives
+    `read_csv` -/
+example : (parseLines ',' (splitP univ "a\rb".toList)).toOption = some [["a".toList], ["b".toList]] ∧
+    (parseLines ',' (splitP lf "a\rb".toList)).toOption = none ∧
+    splitP univ "x\r\ny\rz\n".toList = ["x\r\n".toList, "y\r".toList, "z\n".toList] ∧
+    (parseLines ',' (splitP univ "\"p\rq\r\nr\",1\r\n".toList)).toOption = some [["p\rq\r\nr".toList, "1".toList]] := by decide
 
 open Serif.CsvLex in
 /-- line-driven and character-driven reading agree on every text, well-formed or not (including the texts the reader rejects) -/
